@@ -350,7 +350,8 @@ def run_core(case, res):
 
 def run_tdep(case, res):
     rng = np.random.default_rng(case['seed'])
-    P, feats = wl.single_assembly(rng, tdep=True, max_rings=5, length=0.5,
+    P, feats = wl.single_assembly(rng, coolant_pool=True,
+                                  tdep=True, max_rings=5, length=0.5,
                                   vel=wl.loguniform(rng, 0.2, 6.0))
     gravity = rng.random() < 0.5
     if gravity:
